@@ -106,6 +106,8 @@ class DataShape(PipeShape):
             return E.bvval(DATA_W[it[1]] * len(it[2]))
         if k == 'str':
             return E.bvval(len(it[4]) + (1 if it[5] else 0))
+        if k == 'strs':
+            return E.bvval(sum(len(x[4]) + (1 if x[5] else 0) for x in it[1]))
         if k == 'fill':
             return evaluate(it[1], env, labels)
         if k == 'zero':
@@ -126,6 +128,13 @@ class DataShape(PipeShape):
             bs = [E.bvval(c) for c in it[4]]
             if it[5]:
                 bs.append(env.z('term') & E.bvval(0xff))
+            return ('bytes', bs)
+        if k == 'strs':
+            bs = []
+            for x in it[1]:
+                bs += [E.bvval(c) for c in x[4]]
+                if x[5]:
+                    bs.append(env.z('term') & E.bvval(0xff))
             return ('bytes', bs)
         if k == 'fill':
             return ('rep', evaluate(it[1], env, labels), evaluate(it[2], env, labels) & E.bvval(0xff))
@@ -167,6 +176,8 @@ def _line(it, k):
             # the string reaches the directive through a preprocessor symbol
             return f'#define STR{k} {q}{raw}{q}\nL{k}: {d + " " if d else ""}STR{k}'
         return f'L{k}: {d + " " if d else ""}{q}{raw}{q}'
+    if kind == 'strs':
+        return f'L{k}: ' + ' '.join(f'{x[1] + " " if x[1] else ""}{x[2]}{x[3]}{x[2]}' for x in it[1])
     if kind == 'fill':
         return f'L{k}: .fill {render(it[1])}, {render(it[2])}'
     if kind == 'zero':
@@ -280,6 +291,18 @@ def shapes(tier, seed):
                                       ('str', '.byte', '"', 'a\\nb', [97, 10, 98], False)], 'big', {}, term=True, upper=True))
     out.append(make('upper:fills', [('fill', V('n'), V('v1')), ('zero', V('n')), ('zerountil', ('+', V('v0'), ('c', 40)))], 'big',
                     {'n': (0, 3), 'v1': (-300, 300)}, upper=True))
+    # several quoted strings on one line: each ends at its own closing quote
+    X = lambda d, q, raw, exp, t: ('str', d, q, raw, exp, t)  # noqa
+    several = {
+        'two-cstr': [X('.cstr', '"', 'a', [97], True), X('.cstr', '"', 'b', [98], True)],
+        'cstr-then-byte-string': [X('.cstr', '"', 'ab', [97, 98], True), X('.byte', "'", 'q', [113], False)],
+        'escaped-quote-then-second': [X('.cstr', '"', 'say \\"hi\\"', [115, 97, 121, 32, 34, 104, 105, 34], True), X('.byte', '"', 'z', [122], False)],
+        'trailing-backslash-pair-then-second': [X('.byte', '"', 'a\\\\', [97, 92], False), X('.byte', '"', 'q', [113], False)],
+        'mixed-quotes': [X('.asciiz', "'", 'it"s', [105, 116, 34, 115], True), X('.cstr', '"', "x'y", [120, 39, 121], True)],
+        'three': [X('.byte', '"', 'a', [97], False), X('.byte', '"', 'b', [98], False), X('.cstr', '"', 'c', [99], True)],
+    }
+    for nm, xs in several.items():
+        out.append(make(f'several-strings:{nm}', [('strs', xs), ('data', '.byte', [('lbl', 'tail')])], 'big', {}, term=True))
     for i, (raw, exp) in enumerate(STRINGS_DQ_ONLY):
         out.append(make(f'strdq:{i}', [('str', '.cstr', '"', raw, exp, True)], 'big', {}, term=True))
         out.append(make(f'strdq:emb:{i}', [('str', None, '"', raw, exp, True)], 'big', {}, embedded=True, term=True))
